@@ -195,4 +195,36 @@ example : let s := (accept full).1
     ((getS (handleFwd s 1000#32 [(300, 4)]).streams 300).map (·.q.nextSSN)) = some 5#16 := by
   decide
 
+/-! ### D24 (known finding): a forward entry of an incarnation that is already reset acts on the next one
+
+A decided run of the model (replayed on the real code: `corpus/C01/known/d24_forward_tsn_after_reset.ops`). Stream 4:
+SSN 0 delivered and read, SSN 1 (TSN 1001) abandoned; reset request (last TSN 1001) deferred, FORWARD-TSN 1001 [4/1] taken,
+the retransmitted request performed: stream 4 is gone. The sender's next FORWARD-TSN still lists 4/1 (its cumulative ack
+lags): taken, stream 4 is re-created as a NEW object `(4, 1)` whose cursor is 2. SSN 0 and SSN 1 of the new incarnation are
+then acknowledged (cumulative point 1003, 1004) and not kept (no byte held, nothing readable); SSN 2 is delivered. -/
+private def dm (t si ssn : Nat) : Reasm.Chunk :=
+  { tsn := BitVec.ofNat 32 t, si := BitVec.ofNat 16 si, ssn := BitVec.ofNat 16 ssn, bf := true, ef := true, ppi := 51, userData := [7] }
+private def rst : Op := .pkt [.reset { rsn := 77#32, lastTSN := 1001#32, ids := [4#16] }]
+/-- up to the performed reset -/
+private def d24a : St :=
+  run (init 1500 0 false true false 0 1000#32) [Op.data (dm 1000 4 0), .accept, .read (4#16, 0) 65536, rst, Op.fwd 1001#32 [(4, 1)], rst]
+/-- the late FORWARD-TSN -/
+private def d24b : St := step d24a (Op.fwd 1002#32 [(4, 1), (1, 0)])
+
+set_option maxRecDepth 1000000 in
+theorem C07_forward_after_reset_witness :
+    -- the reset of the first incarnation has been performed: stream 4 is not in the table
+    d24a.performed.contains 77#32 = true ∧ (getS d24a.streams 4#16).isSome = false ∧ d24a.pq.cum = 1001#32 ∧
+    -- the FORWARD-TSN is taken and re-creates stream 4 as a new object with its cursor past the entry
+    d24b.pq.cum = 1002#32 ∧ ((getS d24b.streams 4#16).map fun x => (x.inc, x.q.nextSSN)) = some (1, 2#16) ∧
+    -- SSN 0 and SSN 1 of the new incarnation: acknowledged, not kept
+    (let s := step d24b (Op.data (dm 1003 4 0))
+     s.pq.cum = 1003#32 ∧ heldRegistered s = 0 ∧ (read s (4#16, 1) 65536).2 = .block ∧
+     (let s' := step s (Op.data (dm 1004 4 1))
+      s'.pq.cum = 1004#32 ∧ heldRegistered s' = 0 ∧ (read s' (4#16, 1) 65536).2 = .block ∧
+      -- SSN 2 is the first one delivered
+      (let s'' := step s' (Op.data (dm 1005 4 2))
+       s''.pq.cum = 1005#32 ∧ heldRegistered s'' = 1))) := by
+  decide
+
 end C07
